@@ -306,11 +306,12 @@ def run(rep, tier):
     # ---------------------------------------------------------------- R6 the shared decoder and line-start machinery
     from ..report import SubReport, merge_sub
     from . import c05, dis_rules
-    dis_rules.restate_decoder(rep, T, "R6", tier)
-    sub = SubReport("C05", tier=tier)
-    c05.run(sub, tier)
-    # C05-R7 is about the default of xdis.bytecode.Bytecode; xdis.std's own Bytecode class chooses the value itself (R8 below)
-    merge_sub(rep, sub, "R6", "C05", only_rules=tuple(r for r in ("R1", "R2", "R3", "R4", "R5", "R6")))
+    if not getattr(rep, "plumbing_only", False):  # (C02 restates this module's plumbing rules and has the decoder rules itself)
+        dis_rules.restate_decoder(rep, T, "R6", tier)
+        sub = SubReport("C05", tier=tier)
+        c05.run(sub, tier)
+        # C05-R7 is about the default of xdis.bytecode.Bytecode; xdis.std's own Bytecode class chooses the value itself (R8 below)
+        merge_sub(rep, sub, "R6", "C05", only_rules=tuple(r for r in ("R1", "R2", "R3", "R4", "R5", "R6")))
     # ---------------------------------------------------------------- R8 xdis.std.Bytecode asks for dis's line semantics
     dl = None
     for c_ in ncls:
